@@ -163,10 +163,21 @@ Fixpoint elem_close (e e' : elem) : bool :=
          | _, _ => false
          end) kids kids'
   end.
+(* a stored scale entry of zero is outside C07's quantifier ("arbitrary non-zero entries"): the
+   code divides by it (Inf/NaN); a decoder that rejects the stream instead differs from the
+   model outside the property *)
+Fixpoint has_zero_scal (e : elem) : bool :=
+  match e with
+  | Elem k _ _ _ d _ kids =>
+      (zlist_eqb (tok_bytes k) (tok_bytes [83; 67; 65; 76]%N) &&
+       match d with DScaled fs => existsb (fun x => (x =? 0) || (x =? 0x8000000000000000)) fs | _ => false end)
+      || existsb has_zero_scal kids
+  end.
 Definition check_c07 (c : case) : verdict :=
   match check (mkProj true true false false) true c with
   | VV =>
     match c_class c, read (c_in c) with
+    | 1%nat, Ok t => if existsb has_zero_scal t then VO else VV
     | 0%nat, Ok t =>
         if Nat.eqb (length t) (length (c_tree c)) && forallb (fun '(x, y) => elem_close x y) (combine t (c_tree c)) &&
            zlist_eqb (tok_visit (map (fun e => (e_key e, e_count e)) (walk_all (skip_pred (c_walkmod c)) t)))
